@@ -144,6 +144,18 @@ func newBackend(policy string) policyapi.Backend {
 }
 
 // boot starts a new plugin incarnation on the state directory.
+// bootedThisRun lists every resource manager instance of the current run
+// (restarts, twins): their event loops are stopped when the run ends, or each
+// would keep its whole world alive for the life of the worker process.
+var bootedThisRun []resmgr.ResourceManager
+
+func stopBooted() {
+	for _, rm := range bootedThisRun {
+		resmgr.VerifStopEvents(rm)
+	}
+	bootedThisRun = nil
+}
+
 func (w *world) boot(cfg *CfgSpec) error {
 	// a new incarnation is a new process: package-level state starts afresh
 	topologyaware.VerifResetGlobals()
@@ -163,6 +175,7 @@ func (w *world) boot(cfg *CfgSpec) error {
 		return fmt.Errorf("NewResourceManager: %w", err)
 	}
 	w.rm = rm
+	bootedThisRun = append(bootedThisRun, rm)
 	w.gen++
 	rc, err := renderCfg(cfg, w.gen)
 	if err != nil {
